@@ -49,6 +49,27 @@ var runs = map[string]func([]int, int) string{
 RUNS
 }
 
+// packages whose parser value can be used for several parses in a row (one value per session)
+var runners = map[string]func() func([]int, int) string{
+RUNNERS
+}
+
+const sessionLen = 8
+
+// sessions: per package with a Runner, the first sessionLen jobs of that package, in job order
+func sessions(jobs []job) (names []string, idx map[string][]int) {
+	idx = map[string][]int{}
+	for i, j := range jobs {
+		if _, ok := runners[j.pkg]; ok && len(idx[j.pkg]) < sessionLen {
+			if len(idx[j.pkg]) == 0 {
+				names = append(names, j.pkg)
+			}
+			idx[j.pkg] = append(idx[j.pkg], i)
+		}
+	}
+	return names, idx
+}
+
 type job struct {
 	pkg    string
 	budget int
@@ -107,11 +128,20 @@ func main() {
 		for i, j := range jobs {
 			fmt.Fprintf(out, "SEQ %d %s\n", i, runs[j.pkg](j.in, j.budget))
 		}
+		// reference of the sessions: one parser value per package, its jobs one after another
+		names, idx := sessions(jobs)
+		for _, n := range names {
+			run := runners[n]()
+			for k, i := range idx[n] {
+				fmt.Fprintf(out, "SES %s %d %s\n", n, k, run(jobs[i].in, jobs[i].budget))
+			}
+		}
 		fmt.Fprintf(out, "DONE %d 0\n", len(jobs))
 		return
 	}
 
 	seq := make([]string, len(jobs))
+	ses := map[string]string{}
 	for _, l := range readLines(os.Args[3]) {
 		fs := strings.SplitN(l, " ", 3)
 		if len(fs) == 3 && fs[0] == "SEQ" {
@@ -120,7 +150,11 @@ func main() {
 				seq[i] = fs[2]
 			}
 		}
+		if gs := strings.SplitN(l, " ", 4); len(gs) == 4 && gs[0] == "SES" {
+			ses[gs[1]+" "+gs[2]] = gs[3]
+		}
 	}
+	sesNames, sesIdx := sessions(jobs)
 	nG, _ := strconv.Atoi(os.Args[4])
 	rounds, _ := strconv.Atoi(os.Args[5])
 	copies, _ := strconv.Atoi(os.Args[6])
@@ -161,6 +195,33 @@ func main() {
 						}
 						ndiff++
 						mu.Unlock()
+					}
+				}
+			}(g)
+		}
+		// sessions: every goroutine below owns ONE parser value per package and parses that package's session with it,
+		// copies times (a fresh value each time), while the goroutines above run their jobs
+		for g := 0; g < nG && g < len(sesNames); g++ {
+			wg.Add(1)
+			go func(g int) {
+				defer wg.Done()
+				<-start
+				for q := g; q < len(sesNames); q += nG {
+					n := sesNames[q]
+					for c := 0; c < copies; c++ {
+						run := runners[n]()
+						for k, i := range sesIdx[n] {
+							got := run(jobs[i].in, jobs[i].budget)
+							runtime.Gosched()
+							if got != ses[fmt.Sprintf("%s %d", n, k)] {
+								mu.Lock()
+								if ndiff < 20 {
+									fmt.Fprintf(out, "DIFFSES %d %d %d %s\n", np, round, i, got)
+								}
+								ndiff++
+								mu.Unlock()
+							}
+						}
 					}
 				}
 			}(g)
@@ -294,13 +355,17 @@ func init() {
 		os.WriteFile(jobsFile, []byte(jl.String()), 0o644)
 
 		// runner
-		var imps, runs strings.Builder
+		var imps, runs, runners strings.Builder
 		for _, g := range gens {
 			fmt.Fprintf(&imps, "\t%s \"verifgen/%s\"\n", g.Name, g.Name)
 			fmt.Fprintf(&runs, "\t%q: %s.Run,\n", g.Name, g.Name)
+			if g.GSpec != nil {
+				fmt.Fprintf(&runners, "\t%q: %s.Runner,\n", g.Name, g.Name)
+			}
 		}
 		src := strings.Replace(c18RunnerTemplate, "IMPORTS", imps.String(), 1)
 		src = strings.Replace(src, "RUNS", runs.String(), 1)
+		src = strings.Replace(src, "RUNNERS", runners.String(), 1)
 		os.WriteFile(filepath.Join(root, "main.go"), []byte(src), 0o644)
 		bin := filepath.Join(root, "runner.bin")
 		build := func(race bool) (string, error) {
@@ -391,6 +456,14 @@ func init() {
 						i, _ := strconv.Atoi(g[3])
 						if len(diffs[i]) < 3 {
 							diffs[i] = append(diffs[i], fmt.Sprintf("GOMAXPROCS=%s round %s: `%s`", g[1], g[2], g[4]))
+						}
+					}
+				case "DIFFSES":
+					g := strings.SplitN(l, " ", 5)
+					if len(g) == 5 {
+						i, _ := strconv.Atoi(g[3])
+						if len(diffs[i]) < 3 {
+							diffs[i] = append(diffs[i], fmt.Sprintf("GOMAXPROCS=%s round %s, one parser value used for the package's session of %d inputs (this is one of them): `%s`", g[1], g[2], 8, g[4]))
 						}
 					}
 				case "LEAK":
